@@ -41,7 +41,7 @@ fn parts_for(prop: &str, tier: Tier) -> Vec<Box<dyn explore::Harness>> {
     };
     match prop {
         "C01" => vec![c(CProp::C01)],
-        "C02" => vec![c(CProp::C02)],
+        "C02" => vec![c(CProp::C02), s(SProp::C02), hc(chain_props::HProp::C02)],
         "C03" => vec![c(CProp::C03)],
         "C04" => vec![s(SProp::C04), hc(chain_props::HProp::C04)],
         "C05" => vec![c(CProp::C05)],
@@ -73,6 +73,7 @@ fn client_prop(name: &str) -> Option<CProp> {
 
 fn server_prop(name: &str) -> Option<SProp> {
     Some(match name {
+        "C02" => SProp::C02,
         "C04" => SProp::C04,
         "C06" => SProp::C06,
         "C08" => SProp::C08,
@@ -203,7 +204,11 @@ fn do_replay(prop: &str, path: &str) -> i32 {
     let sig = doc["signature"].as_str().unwrap_or("");
     let harness = doc["harness"].as_str().unwrap_or("");
     if harness.starts_with("chain") {
-        let hp = if prop == "C04" { chain_props::HProp::C04 } else { chain_props::HProp::C18 };
+        let hp = match prop {
+            "C02" => chain_props::HProp::C02,
+            "C04" => chain_props::HProp::C04,
+            _ => chain_props::HProp::C18,
+        };
         let cfg: chain::ChainCfg = serde_json::from_value(doc["config"].clone()).expect("config");
         let (out, _) = chain_props::run_cfg(hp, &cfg, &choices, true);
         if let Some(e) = out.machinery_error {
